@@ -6,6 +6,17 @@ From ChiaV.Gen Require Import StreamTypes.
 From ChiaV.Props Require Import C20.
 Open Scope N_scope.
 
+Check C20_json_roundtrip : forall O t v,
+  json_ok t = true -> wf O false t v = true ->
+  exists j, to_json t v = Some j /\ from_json O t j = Some v.
+Print Assumptions C20_json_roundtrip.
+Check C20_json_roundtrip_same_bytes_and_hash : forall O t v,
+  json_ok t = true -> wf O false t v = true ->
+  exists j, to_json t v = Some j /\
+    forall v', from_json O t j = Some v' -> v' = v /\ encode t v' = encode t v /\ digest O t v' = digest O t v.
+Print Assumptions C20_json_roundtrip_same_bytes_and_hash.
+Check C20_json_ok_every_translated_type : forallb (fun p => json_ok (snd p)) stream_types = true.
+Print Assumptions C20_json_ok_every_translated_type.
 Check C20_reject_wrong_byte_length : forall O n h b,
   of_hex h = Some b -> length b <> n -> from_json O (BytesN n) (JStr (x30 :: x78 :: h)) = None.
 Print Assumptions C20_reject_wrong_byte_length.
